@@ -314,6 +314,11 @@ class Task(Value, Generic[P, R]):
             if "check_valid" in options_dict:
                 options_dict["check_valid"] = CacheCheckValid(options_dict["check_valid"])
 
+        # Handle exported option synonyms: the legacy `cache` option is stored as `cache_scope`
+        # (see above), so exporting `cache` must export `cache_scope` too.
+        if "cache" in self._export_options:
+            self._export_options.add("cache_scope")
+
         # Automatically export provenance recording option.
         if "prov" in self._task_options_base or "prov" in self._task_options_override:
             self._export_options.add("prov")
@@ -405,11 +410,8 @@ class Task(Value, Generic[P, R]):
             **self._task_options_override,
             **task_options_update,
         }
+        # Note: option synonyms (e.g. `cache`) are handled by `_validate()`.
         export_options = self._export_options | set(task_options_update.keys())
-
-        # Handle option synonyms.
-        if "cache" in export_options:
-            export_options.add("cache_scope")
 
         # Be sure to clone the actual type, in case it's a derived one.
         return self.__class__(
